@@ -59,14 +59,19 @@ func c20OneOutcome(c *Ctx) {
 				continue
 			}
 			rv := RetVals(ret)
-			e := rv[len(rv)-1]
-			good := IsNil()(e) || FieldLoad("producerExpectation.Result")(e) || GlobalLoad("errOutOfExpectations")(e)
-			if ex, isEx := e.(*ssa.Extract); isEx {
-				good = true // error result of the partitioner call
-				_ = ex
-			}
-			if cl, isCall := e.(*ssa.Call); isCall && !cl.Call.IsInvoke() && FieldLoad("producerExpectation.CheckFunction")(cl.Call.Value) {
-				good = true
+			// the value may be merged from several places (phi): every source must be an allowed one
+			good := true
+			for _, e := range phiEdges(rv[len(rv)-1]) {
+				g := IsNil()(e) || FieldLoad("producerExpectation.Result")(e) || GlobalLoad("errOutOfExpectations")(e)
+				if _, isEx := e.(*ssa.Extract); isEx {
+					g = true // error result of the partitioner call
+				}
+				if cl, isCall := e.(*ssa.Call); isCall && !cl.Call.IsInvoke() && FieldLoad("producerExpectation.CheckFunction")(cl.Call.Value) {
+					g = true
+				}
+				if !g {
+					good = false
+				}
 			}
 			if !good {
 				ok, bad = false, ret
